@@ -161,9 +161,6 @@ package atree
 
 //@ # ---- the head an array leaf writes (C07): version 1, kind array-data, root flag = has extra data, reference flag = some element holds
 //@ # a reference, next-slab flag = has a sibling link, size-limited
-//@ iface Writer.Write(p) (n, err)
-//@   modifies alloc
-
 //@ func (a *ArrayDataSlab) Encode(enc) (err)  serves C07
 //@   requires enc != nil
 //@   before Writer.Write#1: h != nil && h[0] / 16 == 1 && h[1] % 32 == 0 && !bit(h[1], 5)
